@@ -541,6 +541,55 @@ func cmdImport(args []string) int {
 		}
 	}
 
+	// a database of more than a hundred records (the import reads every existing record in order to keep the
+	// higher of old and new): an older file for a key that comes early in key order must lower nothing
+	{
+		base, err := newBaseDir()
+		if err != nil {
+			return 2
+		}
+		var first [48]byte
+		first[0] = 0x01
+		if err := withRules(ctx, base, func(r *standardrules.Service) error {
+			prot := map[[48]byte]*rules.SlashingProtection{}
+			for i := 0; i < 150; i++ {
+				var k [48]byte
+				copy(k[:], rng.Bytes(48))
+				if k[0] < 0x10 {
+					k[0] |= 0x10 // after the key under test
+				}
+				prot[k] = &rules.SlashingProtection{PubKey: append([]byte{}, k[:]...), HighestProposedSlot: int64(10 + i), HighestAttestedSourceEpoch: int64(i), HighestAttestedTargetEpoch: int64(i + 1)}
+			}
+			prot[first] = &rules.SlashingProtection{PubKey: append([]byte{}, first[:]...), HighestProposedSlot: 5000, HighestAttestedSourceEpoch: 400, HighestAttestedTargetEpoch: 500}
+			return r.ImportSlashingProtection(ctx, prot)
+		}); err != nil {
+			fmt.Fprintln(os.Stderr, "large database:", err)
+			return 2
+		}
+		old := &jFile{Version: "5", GVR: testGVR, Data: []jEntry{{Key: fmt.Sprintf("0x%x", first[:]), Blocks: []jNum{{Text: "100"}}, Atts: []jAtt{{Src: "40", Tgt: "50"}}}}}
+		fpath := filepath.Join(base, "import.json")
+		if err := os.WriteFile(fpath, old.JSON(), 0o600); err != nil {
+			return 2
+		}
+		code, _ := bin.run(base, "--import-slashing-protection", "--slashing-protection-file", fpath, "--genesis-validators-root", testGVR)
+		stats["large-database.exit"] = code
+		if err := withRules(ctx, base, func(r *standardrules.Service) error {
+			exp, err := r.ExportSlashingProtection(ctx)
+			if err != nil {
+				return err
+			}
+			e := exp[first]
+			if e == nil || e.HighestProposedSlot < 5000 || e.HighestAttestedSourceEpoch < 400 || e.HighestAttestedTargetEpoch < 500 {
+				monFail = append(monFail, fmt.Sprintf("database of 302 records, key %x... at slot 5000 and attestation 400->500; import of an older file for it (slot 100, 40->50) exited %d and left the record at %+v: the import lowered the protection", first[:4], code, e))
+			}
+			return nil
+		}); err != nil {
+			fmt.Fprintln(os.Stderr, "large database:", err)
+			return 2
+		}
+		os.RemoveAll(base)
+	}
+
 	// cases file
 	var b strings.Builder
 	b.WriteString("From DV Require Import Corr.CheckImport.\nLocal Open Scope Z_scope.\nLocal Open Scope string_scope.\n")
